@@ -127,14 +127,25 @@ impl Prop for Emission {
         "C14/emission".into()
     }
     fn rule(&self) -> String {
-        "multi-module inputs in nested directories from the rich generator (modules without items, several backend blocks per module in all three forms, rust and other backends, prologue/epilogue texts holding uniquely named marker consts, extern types and values, vftable owners), built through pyxis::build on disk. Oracle: the files under the output directory are exactly {<module path>.rs}; each file holds exactly one struct per declared type plus one <T>Vftable per vftable block, exactly one enum per declared enum, exactly one get_<name> per extern value, nothing for extern types; rust prologue markers come before and epilogue markers after all generated items, each once and in source order; no text of other backends. Non-trivial: >=2 modules and (>=1 backend block or a nested directory)".into()
+        "multi-module inputs in nested directories from the rich generator (modules without items, several backend blocks per module in all three forms (sometimes one repeated verbatim), rust and other backends, prologue/epilogue texts holding uniquely named marker consts, extern types and values, vftable owners), built through pyxis::build on disk. Oracle: the files under the output directory are exactly {<module path>.rs}; each file holds exactly one struct per declared type plus one <T>Vftable per vftable block, exactly one enum per declared enum, exactly one get_<name> per extern value, nothing for extern types; rust prologue markers come before and epilogue markers after all generated items, each once and in source order; no text of other backends. Non-trivial: >=2 modules and (>=1 backend block or a nested directory)".into()
     }
     fn gen(&self, t: &mut Tape) -> Case {
         let w = if t.chance(1, 2) { 8 } else { 4 };
         let mut cfg = GenCfg::rich(w);
         cfg.max_mods = 6;
         cfg.max_items = 1 + t.below(10 * crate::driver::scale());
-        let (prog, _, _) = gen_prog(t, cfg);
+        let (mut prog, _, _) = gen_prog(t, cfg);
+        // now and then a module repeats one of its backend blocks verbatim: written twice, emitted twice
+        if t.chance(1, 4) {
+            let with: Vec<usize> = (0..prog.mods.len()).filter(|&i| !prog.mods[i].backends.is_empty()).collect();
+            if !with.is_empty() {
+                let mi = with[t.below(with.len() as u64) as usize];
+                let k = t.below(prog.mods[mi].backends.len() as u64) as usize;
+                let b = prog.mods[mi].backends[k].clone();
+                let pos = t.below(prog.mods[mi].backends.len() as u64 + 1) as usize;
+                prog.mods[mi].backends.insert(pos, b);
+            }
+        }
         Case { prog, w }
     }
     fn judge(&self, c: &Case) -> Outcome {
@@ -149,7 +160,8 @@ impl Prop for Emission {
             Res::Ok(b) => match check_emission(&c.prog, &b.files) {
                 Ok(()) => {
                     let mut o = Outcome::pass(nontrivial);
-                    for (k, v) in [("nested", nested), ("backends", backends), ("module-without-items", empty_mod)] {
+                    let repeated = c.prog.mods.iter().any(|m| m.backends.iter().enumerate().any(|(i, b)| m.backends[..i].contains(b)));
+                    for (k, v) in [("nested", nested), ("backends", backends), ("module-without-items", empty_mod), ("repeated-backend-block", repeated)] {
                         if v {
                             o = o.class(k);
                         }
